@@ -3,6 +3,7 @@ package mon
 import (
 	"encoding/json"
 	"fmt"
+	"math"
 	"os"
 	"os/exec"
 	"path/filepath"
@@ -16,6 +17,7 @@ import (
 	crosschaintypes "github.com/functionx/fx-core/v8/x/crosschain/types"
 	fxgovtypes "github.com/functionx/fx-core/v8/x/gov/types"
 
+	fxtypes "github.com/functionx/fx-core/v8/types"
 	"verif/harness/chain"
 	"verif/harness/core"
 	"verif/harness/fix"
@@ -37,6 +39,11 @@ type c17Spec struct {
 	Case  core.Case `json:"case,omitempty"`
 	Reps  int       `json:"reps"`
 	Steps int       `json:"steps,omitempty"`
+	// power-threshold: bonded power (units of 100 FX) per oracle, threshold in tenths, and per round three
+	// (oracle index, added power) pairs; planned once by the parent so that every replica does the same
+	Stakes []uint64       `json:"stakes,omitempty"`
+	Pct    int64          `json:"pct,omitempty"`
+	Plan   [][3][2]uint64 `json:"plan,omitempty"`
 }
 
 func init() {
@@ -78,6 +85,10 @@ func c17Cases(seed uint64, tier string) []core.Case {
 	for i := 0; i < churn; i++ {
 		out = append(out, core.MkCase(fmt.Sprintf("C17-oracle-churn-%d", i), c17Spec{Seed: rng.Uint64(), Kind: "oracle-churn", Reps: reps, Steps: 14}))
 	}
+	// power change exactly at the governance-set threshold (kept last: the cases above keep their seeds)
+	for i := 0; i < (churn+1)/2; i++ {
+		out = append(out, core.MkCase(fmt.Sprintf("C17-power-threshold-%d", i), c17Spec{Seed: rng.Uint64(), Kind: "power-threshold", Reps: reps + 3, Steps: 3}))
+	}
 	return out
 }
 
@@ -113,6 +124,8 @@ func C17Child(specPath, out string) int {
 			// the monitor's own verdict is part of the observable outcome too
 			note(fmt.Sprintf("workload verdict: violations=%d inconclusive=%q", len(r.Violations), r.Inconclusive))
 		}()
+	case "power-threshold":
+		c17Threshold(spec, note)
 	default:
 		c17Churn(spec, note)
 	}
@@ -196,6 +209,158 @@ func c17Churn(spec c17Spec, note func(string)) {
 	}
 }
 
+// c17Threshold: governance sets the share of power that has to move before a new oracle set is requested to
+// 20 / 40 / 60 / 80 %; twenty unequally bonded oracles; then, round after round, three of them add to their
+// delegation by amounts searched for so that the summed change of the normalised powers since the latest
+// oracle set equals the threshold exactly (the comparison in the end blocker is decided by the last digit).
+func c17Threshold(spec c17Spec, note func(string)) {
+	// one unit of oracle power is 100 FX; large stakes make the normalised powers fine-grained enough for an
+	// exact hit to exist within a short search (the delegation limit is raised for that)
+	c := chain.New(chain.Config{Seed: spec.Seed, NumVals: 3, NumUsers: 4, CrosschainParams: func(n string, p *crosschaintypes.Params) {
+		p.SignedWindow = 100_000
+		p.DelegateMultiple = 1_000_000
+	}})
+	w := fix.NewWorld(c)
+	var stakes []sdkmath.Int
+	for _, u := range spec.Stakes {
+		stakes = append(stakes, chain.FX(int64(100*u)))
+	}
+	b, err := w.AddBridge("eth", stakes)
+	if err != nil {
+		note("setup failed: " + err.Error())
+		return
+	}
+	params := b.K.GetParams(c.Ctx)
+	params.OracleSetUpdatePowerChangePercent = sdkmath.LegacyNewDecWithPrec(spec.Pct, 1)
+	r := c.Msg(&crosschaintypes.MsgUpdateParams{ChainName: "eth", Authority: chain.GovAuthority(), Params: params})
+	note(fmt.Sprintf("threshold %d0%%: ok=%v", spec.Pct, r.OK()))
+	c.Next()
+	for round, plan := range spec.Plan {
+		for _, st := range plan {
+			o := b.Oracles[st[0]]
+			amt := sdk.NewCoin(fxtypes.DefaultDenom, chain.FX(int64(100*st[1])))
+			fix.Fund(c, o.Oracle.Acc(), amt)
+			res := c.Msg(&crosschaintypes.MsgAddDelegate{ChainName: "eth", OracleAddress: o.Oracle.Bech32(), Amount: amt})
+			note(fmt.Sprintf("round %d: oracle %d adds %s: ok=%v", round, st[0], amt, res.OK()))
+		}
+		before := b.K.GetLatestOracleSetNonce(c.Ctx)
+		// what the end blocker is about to compare, recomputed from the stored objects
+		var moved uint64
+		if latest := b.K.GetLatestOracleSet(c.Ctx); latest != nil {
+			lastBy := map[string]uint64{}
+			for _, m := range latest.Members {
+				lastBy[m.ExternalAddress] = m.Power
+			}
+			for _, m := range b.K.GetCurrentOracleSet(c.Ctx).Members {
+				if l := lastBy[m.ExternalAddress]; m.Power > l {
+					moved += m.Power - l
+				} else {
+					moved += l - m.Power
+				}
+			}
+		}
+		c.Next()
+		note(fmt.Sprintf("round %d: normalised power moved %d of %d (threshold %d): oracle set nonce %d -> %d", round, moved, uint64(math.MaxUint32), uint64(spec.Pct)*math.MaxUint32/10, before, b.K.GetLatestOracleSetNonce(c.Ctx)))
+		c.Next()
+	}
+}
+
+// c17PlanThreshold fills in stakes, threshold and the per-round additions of a power-threshold history. The
+// oracle powers are modelled (power = stake / 100 FX, normalised to MaxUint32 by truncating division, a new
+// oracle set after every round); the search looks for additions after which the summed absolute change of the
+// normalised powers equals threshold * MaxUint32 exactly.
+func c17PlanThreshold(spec *c17Spec) (searched int) {
+	rng := core.Rng(spec.Seed, 0x17b)
+	spec.Pct = []int64{2, 4, 6, 8}[rng.IntN(4)]
+	powers := make([]uint64, 20)
+	for i := range powers {
+		powers[i] = uint64(1000 + rng.IntN(9000))
+	}
+	spec.Stakes = append([]uint64(nil), powers...)
+	norm := func(ps []uint64) []uint64 {
+		var total uint64
+		for _, p := range ps {
+			total += p
+		}
+		out := make([]uint64, len(ps))
+		for i, p := range ps {
+			out[i] = p * math.MaxUint32 / total
+		}
+		return out
+	}
+	last := norm(powers)
+	target := uint64(spec.Pct) * math.MaxUint32 / 10 // exact: MaxUint32 is divisible by 5 and Pct is even
+	cur := make([]uint64, len(powers))
+	for round := 0; round < spec.Steps; round++ {
+		var x, y, z int
+		diff := func(a1, a2, a3 uint64) uint64 {
+			var total uint64
+			for i, p := range powers {
+				switch i {
+				case x:
+					p += a1
+				case y:
+					p += a2
+				case z:
+					p += a3
+				}
+				cur[i] = p
+				total += p
+			}
+			var sum uint64
+			for i, p := range cur {
+				n := p * math.MaxUint32 / total
+				if l := last[i]; n > l {
+					sum += n - l
+				} else {
+					sum += l - n
+				}
+			}
+			return sum
+		}
+		found := false
+		var add [3]uint64
+		const budget = 2_500_000
+		n := 0
+	search:
+		for n < budget {
+			perm := rng.Perm(len(powers))
+			x, y, z = perm[0], perm[1], perm[2]
+			a1 := powers[x]/4 + uint64(rng.IntN(64))
+			// every value of the second addition gives a different total, i.e. an independent chance
+			for a2 := uint64(1); a2 <= 150_000 && n < budget; a2++ {
+				if diff(a1, a2, 0) >= target {
+					break
+				}
+				lo, hi := uint64(0), uint64(1<<23)
+				for lo < hi {
+					mid := (lo + hi) / 2
+					if diff(a1, a2, mid) >= target {
+						hi = mid
+					} else {
+						lo = mid + 1
+					}
+				}
+				n++
+				if lo > 0 && diff(a1, a2, lo) == target {
+					add, found = [3]uint64{a1, a2, lo}, true
+					break search
+				}
+			}
+		}
+		searched += n
+		if !found {
+			break
+		}
+		spec.Plan = append(spec.Plan, [3][2]uint64{{uint64(x), add[0]}, {uint64(y), add[1]}, {uint64(z), add[2]}})
+		powers[x] += add[0]
+		powers[y] += add[1]
+		powers[z] += add[2]
+		last = norm(powers)
+	}
+	return searched
+}
+
 func runC17(cs core.Case, verbose bool) core.CaseResult {
 	var spec c17Spec
 	res := core.CaseResult{}
@@ -210,7 +375,17 @@ func runC17(cs core.Case, verbose bool) core.CaseResult {
 	}
 	defer os.RemoveAll(tmp)
 	specPath := filepath.Join(tmp, "spec.json")
-	_ = os.WriteFile(specPath, cs.Spec, 0o644)
+	specBytes := []byte(cs.Spec)
+	if spec.Kind == "power-threshold" {
+		res.Count("threshold_candidates_searched", int64(c17PlanThreshold(&spec)))
+		res.Count("threshold_rounds_planned", int64(len(spec.Plan)))
+		if len(spec.Plan) == 0 {
+			res.Inconclusive = "no additions found that move the power by the threshold exactly"
+			return res
+		}
+		specBytes, _ = json.Marshal(spec)
+	}
+	_ = os.WriteFile(specPath, specBytes, 0o644)
 	envs := [][]string{
 		{"GOMAXPROCS=1", "GOGC=100", "TZ=UTC", "LANG=C"},
 		{"GOMAXPROCS=16", "GOGC=1", "TZ=Asia/Tokyo", "LANG=de_DE.UTF-8"},
@@ -255,6 +430,19 @@ func runC17(cs core.Case, verbose bool) core.CaseResult {
 			ops++
 		case strings.Contains(l, "oracles at once: ok=true"):
 			drops++
+		case strings.Contains(l, ": normalised power moved "):
+			var rd int
+			var moved, of, thr, n0, n1 uint64
+			if _, err := fmt.Sscanf(l, "round %d: normalised power moved %d of %d (threshold %d): oracle set nonce %d -> %d", &rd, &moved, &of, &thr, &n0, &n1); err == nil {
+				if moved == thr {
+					res.Count("threshold_rounds_exactly_at_threshold", 1)
+				} else {
+					res.Count("threshold_rounds_off_threshold", 1)
+				}
+				if n1 > n0 {
+					res.Count("threshold_rounds_with_new_oracle_set", 1)
+				}
+			}
 		}
 	}
 	if spec.Kind == "workload" && (spec.Prop == "C07" || spec.Prop == "C13" || spec.Prop == "C01") {
